@@ -34,6 +34,36 @@ impl<V> BTreeMap<u128, V> {
                 r == (if old(self)@.contains_key(*k) { Some(old(self)@[*k]) } else { None::<V> }),
     { unimplemented!() }
 }
+// values_mut(): every value exactly once (prophecy form: `fin` is the map as it will be when the iteration is over)
+pub struct ValuesMut<K, V> { pub ghost ks: Seq<K>, pub ghost cur: Map<K, V>, pub ghost fin: Map<K, V>, pub _p: core::marker::PhantomData<(K, V)> }
+impl<V> BTreeMap<u128, V> {
+    #[verifier::external_body]
+    pub fn values_mut(&mut self) -> (it: ValuesMut<u128, V>)
+        ensures it.ks.no_duplicates(), it.ks.to_set() == old(self)@.dom(), it.cur == old(self)@, it.fin.dom() == old(self)@.dom(), final(self)@ == it.fin,
+    { unimplemented!() }
+}
+impl<V> ValuesMut<u128, V> {
+    #[verifier::external_body]
+    pub fn next(&mut self) -> (r: Option<&mut V>)
+        ensures final(self).fin == old(self).fin, final(self).cur == old(self).cur,
+            old(self).ks.len() == 0 ==> r is None && final(self).ks == old(self).ks,
+            old(self).ks.len() > 0 ==> r is Some && final(self).ks == old(self).ks.skip(1)
+                && *r->Some_0 == old(self).cur[old(self).ks[0]] && *final(r->Some_0) == old(self).fin[old(self).ks[0]],
+    { unimplemented!() }
+}
+pub proof fn lemma_skip_first_key(s: Seq<u128>)
+    requires s.len() > 0, s.no_duplicates(),
+    ensures s.skip(1).no_duplicates(), !s.skip(1).contains(s[0]),
+        forall|x: u128| s.contains(x) <==> (x == s[0] || #[trigger] s.skip(1).contains(x)),
+{
+    let t = s.skip(1);
+    assert forall|x: u128| s.contains(x) <==> (x == s[0] || #[trigger] t.contains(x)) by {
+        if s.contains(x) { let i = choose|i: int| 0 <= i < s.len() && s[i] == x; if i > 0 { assert(t[i - 1] == x); } }
+        if t.contains(x) { let j = choose|j: int| 0 <= j < t.len() && t[j] == x; assert(s[j + 1] == x); }
+    }
+    if t.contains(s[0]) { let j = choose|j: int| 0 <= j < t.len() && t[j] == s[0]; assert(s[j + 1] == s[0]); }
+    assert forall|i: int, j: int| 0 <= i < t.len() && 0 <= j < t.len() && i != j implies t[i] != t[j] by { assert(s[i + 1] != s[j + 1]); }
+}
 impl<'a, V> Keys<'a, u128, V> {
     #[verifier::external_body]
     pub fn next(&mut self) -> (r: Option<&'a u128>)
@@ -41,4 +71,4 @@ impl<'a, V> Keys<'a, u128, V> {
                 old(self).first is Some ==> r is Some && *r->Some_0 == old(self).first->Some_0,
     { unimplemented!() }
 }
-//@trusted std::collections::BTreeMap<u128,_>::{new,len,keys().next(),insert,remove}: map semantics, keys() ascending (std documentation)
+//@trusted std::collections::BTreeMap<u128,_>::{new,len,keys().next(),insert,remove,values_mut}: map semantics, keys() ascending, values_mut() yields every value exactly once (std documentation)
